@@ -217,7 +217,19 @@ impl Harness for RingH {
     fn fingerprint(&self) -> u128 {
         let im = parse_ring_u32(&format!("{:?}", self.ring));
         match im {
-            Some(im) => fp128(&(self.cap, im.read_at, im.length, self.q.len())),
+            Some(im) => {
+                // the unallocated area may hold data written through the random-access
+                // interface; operations behave the same whatever it holds, but the ORACLE can
+                // only see a misplaced unallocated area where the model knows its content, so
+                // states that differ in what is known there must not be merged (exact mask for
+                // small rings, count beyond)
+                let known: u64 = if self.cap <= 10 {
+                    self.un.iter().enumerate().fold(0u64, |m, (i, x)| if x.is_some() { m | (1 << i) } else { m })
+                } else {
+                    1000 + self.un.iter().filter(|x| x.is_some()).count() as u64
+                };
+                fp128(&(self.cap, im.read_at, im.length, self.q.len(), known))
+            }
             None => 0,
         }
     }
